@@ -31,6 +31,9 @@ func init() {
 	register(&core.Rule{ID: "C14.4", Prop: "C14", MinSites: 1,
 		Desc: "lookup: getConn returns the table/map entry addressed by the descriptor (matrix: through fd2gfd with the ok test and the nil-row test)",
 		Run: runC14_4})
+	register(&core.Rule{ID: "C14.6", Prop: "C14", MinSites: 3, Applies: func(c core.Config) bool { return c.HasTag("gc_opt") },
+		Desc: "relocation scan coverage: the backward search for the last live entry starts at the last row/column (RowMax-1, ColumnMax-1), goes down to the vacated row (>=) and, in every other row, down to column 0 (lower bound -1, raised to the vacated column only in the vacated row)",
+		Run: runC14_6})
 	register(&core.Rule{ID: "C14.5", Prop: "C14", MinSites: 1,
 		Desc: "addConn sets c.gfd from NewGFD(c.fd, index, row, column) and (matrix) stores that same value in fd2gfd[c.fd] and the conn at table[row][column]",
 		Run: runC14_5})
@@ -479,4 +482,109 @@ func runC14_5(c *core.Ctx) {
 	})
 	c.Check(okMap, f.Name, "fd2gfd[c.fd] = c.gfd", f.Decl.Pos(), "reverse index holds the same gfd", "addConn no longer stores c.gfd under c.fd in the reverse index")
 	c.Check(okTab, f.Name, "table[cm.row][cm.column] = c", f.Decl.Pos(), "conn stored at the slot named by its gfd", "addConn stores the conn at a slot other than the one recorded in its gfd")
+}
+
+func runC14_6(c *core.Ctx) {
+	a := regAnchors(c)
+	if a == nil || !a.gc {
+		return
+	}
+	f := a.del
+	rowMax, _ := c.P.Object("internal/gfd", "ConnMatrixRowMax").(*types.Const)
+	colMax, _ := c.P.Object("internal/gfd", "ConnMatrixColumnMax").(*types.Const)
+	if !c.Need("ConnMatrixRowMax", rowMax) || !c.Need("ConnMatrixColumnMax", colMax) {
+		return
+	}
+	isMaxMinus1 := func(e ast.Expr, k *types.Const) bool {
+		be, ok := ast.Unparen(e).(*ast.BinaryExpr)
+		if !ok || be.Op != token.SUB || flow.ObjOf(f.Info, be.X) != types.Object(k) {
+			return false
+		}
+		cv := flow.ConstOf(f.Info, be.Y)
+		return cv != nil && cv.ExactString() == "1"
+	}
+	isAccessor := func(e ast.Expr, name string) bool {
+		call, ok := ast.Unparen(e).(*ast.CallExpr)
+		if !ok {
+			return false
+		}
+		cf := flow.CalleeFunc(f.Info, call)
+		return cf != nil && cf.Name() == name
+	}
+	var loops []*ast.ForStmt
+	ast.Inspect(f.Decl.Body, func(n ast.Node) bool {
+		if fs, ok := n.(*ast.ForStmt); ok {
+			loops = append(loops, fs)
+		}
+		return true
+	})
+	var rowLoop, colLoop *ast.ForStmt
+	for _, fs := range loops {
+		init, ok := fs.Init.(*ast.AssignStmt)
+		if !ok || len(init.Lhs) != 1 {
+			continue
+		}
+		if isMaxMinus1(init.Rhs[0], rowMax) {
+			rowLoop = fs
+		}
+		if isMaxMinus1(init.Rhs[0], colMax) {
+			colLoop = fs
+		}
+	}
+	c.Check(rowLoop != nil && colLoop != nil, f.Name, "scan starts at the last slot", f.Decl.Pos(), "row from RowMax-1, column from ColumnMax-1", "the relocation scan no longer starts at the last row / last column: live entries in the skipped slots are never moved, and the next-free cursor is placed in front of them")
+	if rowLoop == nil || colLoop == nil {
+		return
+	}
+	// row loop: row >= vacatedRow ; row--
+	okRow := false
+	if x, y, op, ok := flow.Cmp(rowLoop.Cond); ok && op == token.GEQ && flow.ObjOf(f.Info, x) == flow.ObjOf(f.Info, rowLoop.Init.(*ast.AssignStmt).Lhs[0]) && isAccessor(y, "ConnMatrixRow") {
+		if post, ok := rowLoop.Post.(*ast.IncDecStmt); ok && post.Tok == token.DEC {
+			okRow = true
+		}
+	}
+	c.Check(okRow, f.Name, "row scan reaches the vacated row", rowLoop.Pos(), "row >= vacated row, descending", "the row scan does not run down to and including the vacated row")
+	// column loop: column > columnMin ; columnMin := -1 ; raised only under row == vacatedRow to vacated column
+	okCol := false
+	why := "the column scan is not `column > lower` descending"
+	if x, y, op, ok := flow.Cmp(colLoop.Cond); ok && op == token.GTR && flow.ObjOf(f.Info, x) == flow.ObjOf(f.Info, colLoop.Init.(*ast.AssignStmt).Lhs[0]) {
+		lower := flow.ObjOf(f.Info, y)
+		if post, ok := colLoop.Post.(*ast.IncDecStmt); ok && post.Tok == token.DEC && lower != nil {
+			// every assignment to lower
+			initOK, raiseOK, other := false, true, false
+			ast.Inspect(f.Decl.Body, func(n ast.Node) bool {
+				switch st := n.(type) {
+				case *ast.IfStmt:
+					// if row == vacatedRow { lower = vacatedColumn }
+					for _, b := range st.Body.List {
+						if as, ok := b.(*ast.AssignStmt); ok && len(as.Lhs) == 1 && flow.ObjOf(f.Info, as.Lhs[0]) == lower && as.Tok == token.ASSIGN {
+							cx, cy, cop, cok := flow.Cmp(st.Cond)
+							if !(cok && cop == token.EQL && (isAccessor(cy, "ConnMatrixRow") || isAccessor(cx, "ConnMatrixRow")) && isAccessor(as.Rhs[0], "ConnMatrixColumn")) {
+								raiseOK = false
+							}
+						}
+					}
+				case *ast.AssignStmt:
+					if len(st.Lhs) == 1 && flow.ObjOf(f.Info, st.Lhs[0]) == lower {
+						if st.Tok == token.DEFINE {
+							if cv := flow.ConstOf(f.Info, st.Rhs[0]); cv != nil && cv.ExactString() == "-1" {
+								initOK = true
+							} else {
+								other = true
+							}
+						}
+					}
+				}
+				return true
+			})
+			switch {
+			case !initOK || other:
+				why = "the lower bound of the column scan is not initialised to -1: column 0 of the rows after the vacated one is never examined, so a live entry there is not relocated and the next-free cursor is placed in front of it (a later add overwrites it)"
+			case !raiseOK:
+				why = "the lower bound of the column scan is raised other than to the vacated column in the vacated row"
+			default:
+				okCol = true
+			}
+		}
+	}
+	c.Check(okCol, f.Name, "column scan reaches column 0 outside the vacated row", colLoop.Pos(), "column > -1 (> vacated column in the vacated row), descending", why)
 }
